@@ -14,6 +14,7 @@ import (
 
 	"github.com/cnotch/ipchub/av/format/mpegts"
 	"github.com/cnotch/ipchub/utils/murmur"
+	"github.com/cnotch/ipchub/utils/verifhook"
 	"github.com/cnotch/xlog"
 )
 
@@ -183,6 +184,7 @@ func (sg *SegmentGenerator) segmentClose() (err error) {
 		curr.file.delete()
 	} else {
 		sg.playlist.addSegment(curr)
+		verifhook.Point("hls.segment.listed", uint32(curr.sequenceNo)) // schedule point: the segment is now fetchable
 	}
 	return
 }
